@@ -943,6 +943,7 @@ static void do_start(int h)
   int argvnull = 0, usewd = 0, rfile = 0, rpath = 0, want_ident = 0, nofile = 0, hlow = 0;
   const char *inchild = NULL;
   int selffile[3] = { -1, -1, -1 };  // f<stream>std=N: the caller's own stdout (1) / stderr (2) FILE as the redirect FILE
+  int rootrel = 0;  // rootrel=1: the caller's working directory is "/" and the program is named relative to it
   long bigarg = 0;  // bigarg=N: one argument of N bytes (beyond MAX_ARG_STRLEN the kernel refuses the exec with E2BIG)
   int selffd[3] = { -1, -1, -1 };  // h<stream>fd=N: the caller passes its own descriptor N as the handle (1>&2 style)
   const char *runex = NULL, *argvx = NULL, *envx = NULL, *wdx = NULL, *progx = NULL;
@@ -1003,6 +1004,7 @@ static void do_start(int h)
     else if ((v = kv(t, "handlemode"))) handlemode = v;
     else if ((v = kv(t, "inchild"))) inchild = v;
     else if ((v = kv(t, "bigarg"))) bigarg = atol(v);
+    else if ((v = kv(t, "rootrel"))) rootrel = atoi(v);
     else if ((v = kv(t, "foutstd"))) selffile[1] = atoi(v);
     else if ((v = kv(t, "ferrstd"))) selffile[2] = atoi(v);
     else if ((v = kv(t, "hinfd"))) selffd[0] = atoi(v);
@@ -1131,6 +1133,12 @@ static void do_start(int h)
   else if (!strcmp(prog, "dir")) snprintf(progpath, sizeof progpath, "%s", c->dir);
   else if (!strcmp(prog, "noexec")) snprintf(progpath, sizeof progpath, "%s/vc.cfg", c->dir);
   else snprintf(progpath, sizeof progpath, "%s", prog);
+  int backfd = -1;
+  if (rootrel && progpath[0] == '/') {
+    backfd = open(".", O_RDONLY | O_DIRECTORY | O_CLOEXEC);
+    if (backfd >= 0) backfd = move_high(backfd);
+    if (chdir("/") == 0) memmove(progpath, progpath + 1, strlen(progpath));  // drop the leading slash
+  }
   const char *argv_default[] = { progpath, "a1", NULL };
   const char **argv = argv_default;
   if (argvx) {
@@ -1171,6 +1179,10 @@ static void do_start(int h)
   w_in_start = 1;
   int r = reproc_start(c->p, (o.fork || argvnull) ? NULL : argv, o);
   w_in_start = 0;
+  if (backfd >= 0 && w_side == 0) {
+    if (fchdir(backfd) < 0) fprintf(stderr, "verif: cannot return from /\n");
+    close(backfd);
+  }
   if (nofile > 0 && w_side == 0) setrlimit(RLIMIT_NOFILE, &rl_old);
   if (w_side == 0 && g_faults_start_only) W->faults_disabled = 1;
   if (r == 0 && w_side == 1) {
